@@ -92,6 +92,10 @@ func runC05(c *Ctx) {
 		c.Fail("c05."+p.Rule, k, "%s", p.Msg)
 	}
 	c.Obs("files_checked", 1)
+	if !typeHasMap(te.Type) && mode != 7 {
+		// the three build / CPU variants must produce the same bytes (statistics kernels included)
+		c.Digest("file", data)
+	}
 	if mode == 3 {
 		c.Obs("copied_stats_files", 1)
 	}
